@@ -51,6 +51,14 @@ func plan(tier string, seed int64) []driver.Case {
 			}
 		}
 	}
+	// curried multi-source operators (xxxWith(others...)): one operator value applied to several main sources
+	for _, cu := range curriedOps {
+		for _, sc := range []string{"1 2 0 2 C", "2 1 E", "C", "1 1 2 2 0 C"} {
+			for _, order := range []string{"AB", "BA", "ABA", "ABC"} {
+				cases = append(cases, driver.Case{ID: fmt.Sprintf("opvalue-curried/%s/%s/%s", cu.name, sc, order), P: map[string]string{"kind": "opvalue-curried", "op": cu.name, "script": sc, "order": order}})
+			}
+		}
+	}
 	var usable []*catalog.Entry
 	for _, e := range catalog.Chainable() {
 		if !e.Flags.Has(catalog.Blocks) && !e.Flags.Has(catalog.NonDet) && !e.Flags.Has(catalog.Hot) {
@@ -311,6 +319,186 @@ func runConcSub(c driver.Case) driver.Result {
 }
 
 // runOpValue applies ONE operator value to several sources before subscribing to any of the results.
+// curried multi-source operators: mk builds ONE operator value from the other observables; the
+// value is then applied to several main sources.
+type curried struct {
+	name string
+	mk   func(x []ro.Observable[int]) func(ro.Observable[int]) catalog.Pipeline
+}
+
+func cp[T any](f func(ro.Observable[int]) ro.Observable[T]) func(ro.Observable[int]) catalog.Pipeline {
+	return func(o ro.Observable[int]) catalog.Pipeline { return catalog.P(f(o)) }
+}
+
+var curriedOps = []curried{
+	{"MergeWith", func(x []ro.Observable[int]) func(ro.Observable[int]) catalog.Pipeline {
+		return cp(ro.MergeWith(x[0], x[1]))
+	}},
+	{"MergeWith1", func(x []ro.Observable[int]) func(ro.Observable[int]) catalog.Pipeline { return cp(ro.MergeWith1(x[0])) }},
+	{"MergeWith2", func(x []ro.Observable[int]) func(ro.Observable[int]) catalog.Pipeline {
+		return cp(ro.MergeWith2(x[0], x[1]))
+	}},
+	{"MergeWith3", func(x []ro.Observable[int]) func(ro.Observable[int]) catalog.Pipeline {
+		return cp(ro.MergeWith3(x[0], x[1], x[0]))
+	}},
+	{"MergeWith4", func(x []ro.Observable[int]) func(ro.Observable[int]) catalog.Pipeline {
+		return cp(ro.MergeWith4(x[0], x[1], x[0], x[1]))
+	}},
+	{"MergeWith5", func(x []ro.Observable[int]) func(ro.Observable[int]) catalog.Pipeline {
+		return cp(ro.MergeWith5(x[0], x[1], x[0], x[1], x[0]))
+	}},
+	{"ConcatWith", func(x []ro.Observable[int]) func(ro.Observable[int]) catalog.Pipeline {
+		return cp(ro.ConcatWith(x[0], x[1]))
+	}},
+	{"ConcatWith()", func(x []ro.Observable[int]) func(ro.Observable[int]) catalog.Pipeline {
+		return cp(ro.ConcatWith[int]())
+	}},
+	{"RaceWith", func(x []ro.Observable[int]) func(ro.Observable[int]) catalog.Pipeline {
+		return cp(ro.RaceWith(x[0], x[1]))
+	}},
+	{"OnErrorResumeNextWith", func(x []ro.Observable[int]) func(ro.Observable[int]) catalog.Pipeline {
+		return cp(ro.OnErrorResumeNextWith(x[0], x[1]))
+	}},
+	{"TakeUntil", func(x []ro.Observable[int]) func(ro.Observable[int]) catalog.Pipeline {
+		return cp(ro.TakeUntil[int](x[0]))
+	}},
+	{"SkipUntil", func(x []ro.Observable[int]) func(ro.Observable[int]) catalog.Pipeline {
+		return cp(ro.SkipUntil[int](x[0]))
+	}},
+	{"SampleWhen", func(x []ro.Observable[int]) func(ro.Observable[int]) catalog.Pipeline {
+		return cp(ro.SampleWhen[int](x[0]))
+	}},
+	{"ThrottleWhen", func(x []ro.Observable[int]) func(ro.Observable[int]) catalog.Pipeline {
+		return cp(ro.ThrottleWhen[int](x[0]))
+	}},
+	{"BufferWhen", func(x []ro.Observable[int]) func(ro.Observable[int]) catalog.Pipeline {
+		return cp(ro.BufferWhen[int](x[0]))
+	}},
+	{"WindowWhen+MergeAll", func(x []ro.Observable[int]) func(ro.Observable[int]) catalog.Pipeline {
+		return cp(func(o ro.Observable[int]) ro.Observable[int] { return ro.MergeAll[int]()(ro.WindowWhen[int](x[0])(o)) })
+	}},
+	{"SequenceEqual", func(x []ro.Observable[int]) func(ro.Observable[int]) catalog.Pipeline {
+		return cp(ro.SequenceEqual(x[0]))
+	}},
+	{"CombineLatestWith", func(x []ro.Observable[int]) func(ro.Observable[int]) catalog.Pipeline {
+		return cp(ro.CombineLatestWith[int](x[0]))
+	}},
+	{"CombineLatestWith1", func(x []ro.Observable[int]) func(ro.Observable[int]) catalog.Pipeline {
+		return cp(ro.CombineLatestWith1[int](x[0]))
+	}},
+	{"CombineLatestWith2", func(x []ro.Observable[int]) func(ro.Observable[int]) catalog.Pipeline {
+		return cp(ro.CombineLatestWith2[int](x[0], x[1]))
+	}},
+	{"CombineLatestWith3", func(x []ro.Observable[int]) func(ro.Observable[int]) catalog.Pipeline {
+		return cp(ro.CombineLatestWith3[int](x[0], x[1], x[0]))
+	}},
+	{"CombineLatestWith4", func(x []ro.Observable[int]) func(ro.Observable[int]) catalog.Pipeline {
+		return cp(ro.CombineLatestWith4[int](x[0], x[1], x[0], x[1]))
+	}},
+	{"ZipWith", func(x []ro.Observable[int]) func(ro.Observable[int]) catalog.Pipeline {
+		return cp(ro.ZipWith[int](x[0]))
+	}},
+	{"ZipWith1", func(x []ro.Observable[int]) func(ro.Observable[int]) catalog.Pipeline {
+		return cp(ro.ZipWith1[int](x[0]))
+	}},
+	{"ZipWith2", func(x []ro.Observable[int]) func(ro.Observable[int]) catalog.Pipeline {
+		return cp(ro.ZipWith2[int](x[0], x[1]))
+	}},
+	{"ZipWith3", func(x []ro.Observable[int]) func(ro.Observable[int]) catalog.Pipeline {
+		return cp(ro.ZipWith3[int](x[0], x[1], x[0]))
+	}},
+	{"ZipWith4", func(x []ro.Observable[int]) func(ro.Observable[int]) catalog.Pipeline {
+		return cp(ro.ZipWith4[int](x[0], x[1], x[0], x[1]))
+	}},
+	{"ZipWith5", func(x []ro.Observable[int]) func(ro.Observable[int]) catalog.Pipeline {
+		return cp(ro.ZipWith5[int](x[0], x[1], x[0], x[1], x[0]))
+	}},
+}
+
+// runOpValueCurried: one xxxWith(others) value applied to main sources A, B (, C), all cold and
+// synchronous; each resulting pipeline must behave like a fresh xxxWith(others) over that source,
+// and must subscribe that source - not the one of another application.
+func runOpValueCurried(c driver.Case) driver.Result {
+	var cu *curried
+	for i := range curriedOps {
+		if curriedOps[i].name == c.Get("op") {
+			cu = &curriedOps[i]
+		}
+	}
+	order := c.Get("order")
+	base := src.Parse(c.Get("script"))
+	res := driver.Result{Verdict: driver.Held}
+	mainScript := func(letter byte) src.Script {
+		var out src.Script
+		for _, n := range base {
+			if n.K == rec.Next {
+				out = append(out, src.Notif{K: rec.Next, V: n.V + 10*int(letter-'A'+1)})
+			} else {
+				out = append(out, n)
+			}
+		}
+		if letter == 'B' && len(out) > 1 {
+			out = out[1:]
+		}
+		return out
+	}
+	extras := func() []ro.Observable[int] {
+		return []ro.Observable[int]{src.New("x0", src.Script{{K: rec.Next, V: 7}, {K: rec.Complete}}).Observable(), src.New("x1", src.Script{{K: rec.Next, V: 8}, {K: rec.Next, V: 9}, {K: rec.Complete}}).Observable()}
+	}
+	want := map[byte]string{}
+	for _, letter := range []byte("ABC") {
+		r := rec.New("ref")
+		s, problem := subscribeOnce(cu.mk(extras())(src.New("m", mainScript(letter)).Observable()), r, 0)
+		if problem != "" {
+			return driver.Result{Verdict: driver.Inconclusive, Key: "reference-run-" + strings.SplitN(problem, ":", 2)[0], Msg: cu.name + ": " + problem, Dirty: true}
+		}
+		want[letter] = r.TraceString()
+		unsub(s)
+	}
+	opValue := cu.mk(extras())
+	type applied struct {
+		letter byte
+		p      catalog.Pipeline
+		main   *src.Source
+	}
+	var apps []applied
+	for i := 0; i < len(order); i++ {
+		m := src.New(fmt.Sprintf("main%c%d", order[i], i), mainScript(order[i]))
+		apps = append(apps, applied{order[i], opValue(m.Observable()), m})
+	}
+	for i, a := range apps {
+		r := rec.New(fmt.Sprintf("app%d", i))
+		s, problem := subscribeOnce(a.p, r, 0)
+		if problem != "" {
+			res.Verdict, res.Key, res.Dirty = driver.Violated, "C12/"+cu.name+"/operator-value-reuse-"+strings.SplitN(problem, ":", 2)[0], true
+			res.Msg = fmt.Sprintf("%s: pipeline #%d (source %c) of one operator value applied in order %s: %s", cu.name, i, a.letter, order, problem)
+			return res
+		}
+		res.Events += int64(r.Len())
+		if got := r.TraceString(); got != want[a.letter] {
+			res.Verdict, res.Key = driver.Violated, "C12/"+cu.name+"/operator-value-applications-influence-each-other"
+			res.Msg = fmt.Sprintf("%s: one operator value applied to main sources %s; the pipeline over source %c (application #%d) delivered [%s], a fresh operator over that source delivers [%s]", cu.name, order, a.letter, i, got, want[a.letter])
+			return res
+		}
+		unsub(s)
+		for j, b := range apps {
+			wantSubs := int64(0)
+			if j <= i {
+				wantSubs = 1
+			}
+			if n := b.main.Subscribed.Load(); n != wantSubs {
+				res.Verdict, res.Key = driver.Violated, "C12/"+cu.name+"/operator-value-applications-influence-each-other"
+				res.Msg = fmt.Sprintf("%s: one operator value applied to main sources %s; after subscribing the pipelines #0..#%d, the main source of application #%d has been subscribed %d time(s) (expected %d)", cu.name, order, i, j, n, wantSubs)
+				return res
+			}
+		}
+	}
+	res.Nontrivial = true
+	res.Sig = "curried/" + cu.name + "|" + c.Get("script") + "|" + order
+	res.Sample = map[string]any{"operator": cu.name, "application_order": order, "fresh_traces": map[string]string{"A": want['A'], "B": want['B'], "C": want['C']}}
+	return res
+}
+
 func runOpValue(c driver.Case) driver.Result {
 	e := catalog.Get(c.Get("entry"))
 	order := c.Get("order")
@@ -407,16 +595,18 @@ func runCase(c driver.Case) driver.Result {
 		return runConcSub(c)
 	case "opvalue":
 		return runOpValue(c)
+	case "opvalue-curried":
+		return runOpValueCurried(c)
 	}
 	return runResub(c)
 }
 
 func main() {
 	driver.Main(driver.Property{
-		ID:    "C12",
-		Level: "exploration",
-		Rule:  "pure differential, no model: for every cold catalogue entry (hot constructs and random-valued creators exempt) and random chains over deterministic cold sources — (1) building the pipeline subscribes no source; (2) three sequential subscriptions of ONE pipeline value each deliver the trace of the first subscription of a FRESHLY built pipeline and subscribe each source as often as a fresh one does (≤1 unless the operator re-subscribes by definition); (3) 2-8 concurrent subscriptions of one pipeline value each deliver that trace (under -race in thorough); (4) ONE operator value applied to sources A, B (, C) in orders AB, BA, ABA, ABC before any subscription: each resulting pipeline delivers what a fresh operator value over that source alone delivers. Non-trivial: the fresh trace is not empty.",
-		Assume: []string{"user callbacks of the catalogue keep no state outside Defer-built closures"},
+		ID:        "C12",
+		Level:     "exploration",
+		Rule:      "pure differential, no model: for every cold catalogue entry (hot constructs and random-valued creators exempt) and random chains over deterministic cold sources — (1) building the pipeline subscribes no source; (2) three sequential subscriptions of ONE pipeline value each deliver the trace of the first subscription of a FRESHLY built pipeline and subscribe each source as often as a fresh one does (≤1 unless the operator re-subscribes by definition); (3) 2-8 concurrent subscriptions of one pipeline value each deliver that trace (under -race in thorough); (4) ONE operator value applied to sources A, B (, C) in orders AB, BA, ABA, ABC before any subscription: each resulting pipeline delivers what a fresh operator value over that source alone delivers. Non-trivial: the fresh trace is not empty.",
+		Assume:    []string{"user callbacks of the catalogue keep no state outside Defer-built closures"},
 		Plan:      plan,
 		Run:       runCase,
 		CaseWatch: 90 * time.Second,
